@@ -96,7 +96,8 @@ def register(R):
   TM = 'ml_metrics/_src/chainables/transform.py'
   ITER = 'ml_metrics/_src/utils/iter_utils.py'
   from pyvc.builtins_ import deepcopy_fn
-  R.cls('_RunnerIterator', dict(agg_state='map[obj,obj]', batch_index='int', _with_agg='bool', _with_result='bool'))
+  R.cls('_Runner4', dict(name='str'))
+  R.cls('_RunnerIterator', dict(agg_state='map[obj,obj]', batch_index='int', _with_agg='bool', _with_result='bool', _runner='_Runner4', _data_sources='list[_RunnerIterator]'))
   R.cls('_IteratorState', dict(input_states='list[obj]', agg_state='map[obj,obj]'), frozen=True)
   # ASSUMED: the states of the data sources, collected by MultiplexIterator.state (one per source, in order)
   R.add(Contract(f'{ITER}::MultiplexIterator.state', 'trusted', types=dict(self='_RunnerIterator'), ret='list[obj]', may_raise=['TypeError']))
@@ -154,6 +155,63 @@ def register(R):
                       'UserError': ['self.batch_index == old(self.batch_index)', 'self.agg_state is old(self.agg_state)']},
       bounded='bounded_resume_pipeline',
       note='with the checkpoint contract: the aggregate of a resumed run is the fold of update over exactly the batches delivered'))
+
+  # ---- restoring: the new iterator gets COPIES of the captured accumulators (it updates them in place; the checkpoint must
+  # stay usable for another restore), the recorded source states, and the same switches
+  R.cls('_RunnerIterator3', dict(_runner='obj', _ignore_error='bool', _with_result='bool', _with_agg='bool'))
+  R.add(Contract(f'{ITER}::MultiplexIterator.from_state', 'trusted', types=dict(self='_RunnerIterator3', states='list[obj]'), ret='obj',
+                 may_raise=['TypeError'], note='ASSUMED: restores every data source from its state and builds cls(data_sources=..., **kwargs)'))
+  R.add(Contract(
+      f'{TM}::_RunnerIterator.from_state', P, types=dict(self='_RunnerIterator3', state='_IteratorState'), ret='obj', may_raise=['TypeError'],
+      ensures=["result is last_result('MultiplexIterator.from_state')",
+               "last_arg('MultiplexIterator.from_state', 'states') is state.input_states",
+               # every accumulator handed to the restored iterator is a deep copy, never the captured object itself
+               "forall(lambda k: (k in last_arg('MultiplexIterator.from_state', 'kwargs')['state']) == (k in state.agg_state), 'obj')",
+               "forall(lambda k: implies(k in state.agg_state,"
+               " state_value(last_arg('MultiplexIterator.from_state', 'kwargs')['state'], k) is copy_of(state_value(state.agg_state, k))"
+               " and state_value(last_arg('MultiplexIterator.from_state', 'kwargs')['state'], k) is not state_value(state.agg_state, k)), 'obj')",
+               "last_arg('MultiplexIterator.from_state', 'kwargs')['runner'] is self._runner",
+               "last_arg('MultiplexIterator.from_state', 'kwargs')['ignore_error'] == self._ignore_error",
+               "last_arg('MultiplexIterator.from_state', 'kwargs')['with_result'] == self._with_result",
+               "last_arg('MultiplexIterator.from_state', 'kwargs')['with_agg_state'] == self._with_agg"],
+      bounded='bounded_resume_pipeline',
+      note='D32: a second restore from the same checkpoint (a retry) starts from the captured aggregates, not from the first restored run'))
+
+  # ---- restoring a chain of two named transforms: the chain is made of the iterators that actually run ----------------------
+  is_stage = z3.Function('is_runner_iterator', Obj, z3.BoolSort())
+  _prev_isinstance = R.isinstance_hook
+  R.isinstance_hook = lambda it, v, cname: (is_stage(v.t) if isinstance(v, VOpaque) and cname == '_RunnerIterator'
+                                            else (_prev_isinstance(it, v, cname) if _prev_isinstance else None))
+
+  @R.spec
+  def is_runner_iterator(it, a, k):
+    v = a[0]
+    return VBool(True) if isinstance(v, VObj) and v.cls == '_RunnerIterator' else VBool(is_stage(it.to_obj(v)))
+
+  R.cls('_ChainedRunnerIterator', dict(_iterators='list[]', _with_result='bool', _with_agg='bool', _with_agg_result='bool', _total='int',
+                                       _single_batch='bool', _prev_ticker='real'))
+  R.add(Contract(f'{TM}::_RunnerIterator.from_state', 'trusted', variant='stage-of-a-chain', when=lambda it, a, k: it.verifying.endswith('_ChainedRunnerIterator.from_state'),
+                 types=dict(self='_RunnerIterator', state='obj'), ret='_RunnerIterator', may_raise=['TypeError'],
+                 ensures=['len(result._data_sources) == 1', 'is_runner_iterator(result._data_sources[0])', 'result is not self'],
+                 note='ASSUMED shape of a restored stage: one data source, its restored upstream (MultiplexIterator.from_state); proved content: see _RunnerIterator.from_state'))
+  def _chain2(it, env):
+    a, b = it.fresh('_RunnerIterator', 'stage_a'), it.fresh('_RunnerIterator', 'stage_b')
+    a.f['_runner'].f['name'], b.f['_runner'].f['name'] = VStr('a'), VStr('b')
+    env['self'].f['_iterators'] = VList([a, b])
+    env['state'] = VDict({'a': it.fresh('obj', 'state_a'), 'b': it.fresh('obj', 'state_b')})
+  R.add(Contract(
+      f'{TM}::_ChainedRunnerIterator.from_state', P, variant='two-stages', types=dict(self='_ChainedRunnerIterator', state='obj'), ret='_ChainedRunnerIterator',
+      setup=_chain2, may_raise=['TypeError'],
+      ensures=['len(result._iterators) == 2',
+               # the last stage is restored from ITS state, and the first stage of the new chain is the iterator that stage reads from
+               "result._iterators[1] is last_result('_RunnerIterator.from_state')",
+               "last_arg('_RunnerIterator.from_state', 'state') is state['b']",
+               'result._iterators[0] is result._iterators[1]._data_sources[0]',
+               # the restored chain keeps reporting (and returning) the aggregates exactly when the original did
+               'truthy(result._with_agg) == truthy(self._with_agg)',
+               'result._with_result == self._with_result', 'result._with_agg_result == self._with_agg_result'],
+      bounded='bounded_resume_pipeline',
+      note='D30 / D31: upstream aggregates of a restored chain; the final aggregate returned by the exhausted iterator'))
 
   R.bounded_checks[P] = [
       ('bounded_resume_sources', 'SequenceDataSource / ShardedIterable (sharded, nested): every cut, up to 3 successive checkpoints'),
